@@ -386,7 +386,7 @@ PROPS = {
         "module": "TcVerif.Props.C11",
         "theorems": ["Tc.C11_interrupted_add_all_or_nothing", "Tc.C11_interrupted_add_respects_parent", "Tc.C11_event_chainOk",
                      "Tc.C11_chain_protocol_survives", "Tc.C11_accepted_stays", "Tc.C11_accept_iff_after",
-                     "Tc.C11_replica_interrupted_absent", "Tc.C11_replica_recovers"],
+                     "Tc.C11_replica_interrupted_absent", "Tc.C11_replica_recovers", "Tc.C11_object_store_stop_anywhere"],
         "leanchecker_modules": [],
         "runs": [
             {"family": "backend", "flags": ["--crash"], "quick": {"cases": 48, "max_len": 20}, "thorough": {"cases": 480, "max_len": 40}},
